@@ -9,20 +9,23 @@
    is the two steps Send;Recv, so this only ADDS schedules (the theorems quantify over a superset).
 
    risor on top of it (one [act] = one atomic step of one script goroutine):
-     Send i    Chan.Send     select { ctx.Done | c.value <- v }          sender i's next value
-     Recv j    Chan.Receive  select { ctx.Done | v, ok := <-c.value }    ok=false -> Nil
-     Next j    Chan.Next     the select of Receive; ok=false -> (nil, false)      } the three statements
-     Store j   Chan.Next     c.lastReceived = value                              } of Chan.Next are
-     Count j   Chan.Next     c.rxCount++ ; return (value, true)                  } three steps
-     Entry j   Chan.Entry    reads c.lastReceived and c.rxCount-1
-     Close k   Chan.Close    close(c.value), "close of closed channel" panic -> error
-     Cancel                  the context of the evaluation is cancelled
+     Send i    Chan.Send       select { ctx.Done | c.value <- v }          sender i's next value
+     Recv j    Chan.Receive    select { ctx.Done | v, ok := <-c.value }    ok=false -> Nil
+     Take j    Chan.NextEntry  the same select (the value stays in a local variable)          } what the VM's ForIter
+     Fin j     Chan.NextEntry  n := atomic.AddInt64(&c.rxCount, 1); the entry (key n-1, value) } opcode does for a
+                               is built from that local value                                 } channel (range loops)
+     Next j    Chan.Next       the select of Receive; ok=false -> (nil, false)     } the three statements
+     Store j   Chan.Next       c.lastReceived = value                             } of Chan.Next are
+     Count j   Chan.Next       c.rxCount++ ; return (value, true)                 } three steps
+     Entry j   Chan.Entry      reads c.lastReceived and c.rxCount-1
+     Close k   Chan.Close      close(c.value), "close of closed channel" panic -> error
+     Cancel                    the context of the evaluation is cancelled
      SendCtx / RecvCtx / NextCtx   the ctx.Done() branch of the select (enabled once cancelled)
-   The VM's ForIter opcode calls iter.Next(ctx), DISCARDS the value it returns, and then calls
-   iter.Entry(): two steps that communicate through the fields lastReceived / rxCount of the
-   shared Chan object.  Receiver j is "inside ForIter" ([iters]) from its Next to its Entry.
-   (rxCount++ and the reads of Entry are taken as atomic: a finer split only adds behaviours when
-   iterations overlap, which is the refuted class anyway.)
+   Next/Store/Count/Entry are the generic Iterator protocol (call Next, DROP its value, call Entry):
+   two calls that communicate through the fields lastReceived / rxCount of the shared Chan object.
+   Range loops no longer use it for channels (fix 0f2710a), but the builtins keys(ch) and map(ch)
+   still do (builtins/builtins.go: iterKeys, Map).  Receiver j is "inside the protocol" ([iters])
+   from its Next to its Entry.  (rxCount++ and the reads of Entry are taken as atomic.)
 
    Messages carry a ghost tag (the sender) next to the payload; [deq] is the ghost log of dequeue
    events in channel order, [seen] is what the scripts actually observed. *)
@@ -34,6 +37,7 @@ Notation msg := (nat * N)%type (only parsing).        (* (ghost sender id, paylo
 
 Inductive act :=
 | Send (i : nat) | Recv (j : nat)
+| Take (j : nat) | Fin (j : nat)
 | Next (j : nat) | Store (j : nat) | Count (j : nat) | Entry (j : nat)
 | Close (k : nat)
 | Cancel | SendCtx (i : nat) | RecvCtx (j : nat) | NextCtx (j : nat).
@@ -44,6 +48,7 @@ Inductive ev :=
 | EvSendClosed (i : nat)             (* "exec error: send on closed channel" *)
 | EvRecv (j : nat) (m : msg)         (* <-c  /  c.receive() returned the value *)
 | EvRecvNil (j : nat)                (* ... returned nil: channel closed and drained *)
+| EvTaken (j : nat)                  (* Chan.NextEntry: the channel handed over a value (still in a local variable) *)
 | EvNext (j : nat)                   (* Chan.Next: the channel handed over a value (still in a local variable) *)
 | EvStore (j : nat)                  (* Chan.Next: c.lastReceived = value *)
 | EvCount (j : nat)                  (* Chan.Next: c.rxCount++ ; returns (value, true), which ForIter drops *)
@@ -54,13 +59,10 @@ Inductive ev :=
 | EvCancel
 | EvSendCtx (i : nat) | EvRecvCtx (j : nat) | EvIterCtx (j : nat).
 
-(* where a receiver is inside ForIter *)
-Inductive phase := Got | Stored | Counted.
+(* where a receiver is: inside Chan.NextEntry (Taken), or inside the Next/Entry protocol *)
+Inductive phase := Taken | Got | Stored | Counted.
 
 Record st := {
-  fused : bool;                      (* false: ForIter = Chan.Next then Chan.Entry (the code as it is);
-                                        true: ForIter takes value and entry in ONE step (the proposed repair,
-                                        proposals/C10-range-multi-receiver.diff: Chan.NextEntry) *)
   buf : list msg;                    (* the Go channel's queue, head = oldest *)
   cap : nat;
   closed : bool;
@@ -70,7 +72,7 @@ Record st := {
   seen : list ev;                    (* every event, in global order *)
   last : option msg;                 (* Chan.lastReceived *)
   rxcount : nat;                     (* Chan.rxCount *)
-  iters : list (nat * (phase * msg)); (* receivers inside ForIter: phase and the value the channel gave them *)
+  iters : list (nat * (phase * msg)); (* receivers inside NextEntry or the protocol: phase and the value they got *)
 }.
 
 Definition upd {A} (f : nat -> A) (i : nat) (v : A) : nat -> A :=
@@ -90,7 +92,7 @@ Definition room (s : st) : bool := length (buf s) <? Nat.max (cap s) 1.
 
 (* the step only reports an event to the script *)
 Definition note (s : st) (e : ev) : st :=
-  {| fused := fused s; buf := buf s; cap := cap s; closed := closed s; cancelled := cancelled s; todo := todo s;
+  {| buf := buf s; cap := cap s; closed := closed s; cancelled := cancelled s; todo := todo s;
      deq := deq s; seen := seen s ++ [e]; last := last s; rxcount := rxcount s; iters := iters s |}.
 
 Definition step (s : st) (a : act) : option (st * ev) :=
@@ -102,7 +104,7 @@ Definition step (s : st) (a : act) : option (st * ev) :=
           if closed s then Some (note s (EvSendClosed i), EvSendClosed i)
           else if room s then
             let e := EvSent i (i, v) in
-            Some ({| fused := fused s; buf := buf s ++ [(i, v)]; cap := cap s; closed := closed s; cancelled := cancelled s;
+            Some ({| buf := buf s ++ [(i, v)]; cap := cap s; closed := closed s; cancelled := cancelled s;
                      todo := upd (todo s) i r;
                      deq := deq s; seen := seen s ++ [e]; last := last s; rxcount := rxcount s;
                      iters := iters s |}, e)
@@ -113,24 +115,37 @@ Definition step (s : st) (a : act) : option (st * ev) :=
       match buf s with
       | m :: r =>
           let e := EvRecv j m in
-          Some ({| fused := fused s; buf := r; cap := cap s; closed := closed s; cancelled := cancelled s; todo := todo s;
+          Some ({| buf := r; cap := cap s; closed := closed s; cancelled := cancelled s; todo := todo s;
                    deq := deq s ++ [(j, m)]; seen := seen s ++ [e]; last := last s; rxcount := rxcount s;
                    iters := iters s |}, e)
       | [] => if closed s then Some (note s (EvRecvNil j), EvRecvNil j)
               else None                                       (* blocked: queue empty *)
       end
+  | Take j =>
+      if busy j s then None else
+      match buf s with
+      | m :: r =>
+          let e := EvTaken j in
+          Some ({| buf := r; cap := cap s; closed := closed s; cancelled := cancelled s; todo := todo s;
+                   deq := deq s ++ [(j, m)]; seen := seen s ++ [e]; last := last s; rxcount := rxcount s;
+                   iters := (j, (Taken, m)) :: iters s |}, e)
+      | [] => if closed s then Some (note s (EvIterEnd j), EvIterEnd j) else None
+      end
+  | Fin j =>
+      match iter_of j (iters s) with
+      | Some (Taken, m) =>
+          let e := EvEntry j (rxcount s) m in
+          Some ({| buf := buf s; cap := cap s; closed := closed s; cancelled := cancelled s; todo := todo s;
+                   deq := deq s; seen := seen s ++ [e]; last := last s; rxcount := S (rxcount s);
+                   iters := drop_iter j (iters s) |}, e)
+      | _ => None
+      end
   | Next j =>
       if busy j s then None else
       match buf s with
       | m :: r =>
-          if fused s then
-            let e := EvEntry j (rxcount s) m in
-            Some ({| fused := fused s; buf := r; cap := cap s; closed := closed s; cancelled := cancelled s; todo := todo s;
-                     deq := deq s ++ [(j, m)]; seen := seen s ++ [e]; last := last s; rxcount := S (rxcount s);
-                     iters := iters s |}, e)
-          else
           let e := EvNext j in
-          Some ({| fused := fused s; buf := r; cap := cap s; closed := closed s; cancelled := cancelled s; todo := todo s;
+          Some ({| buf := r; cap := cap s; closed := closed s; cancelled := cancelled s; todo := todo s;
                    deq := deq s ++ [(j, m)]; seen := seen s ++ [e]; last := last s; rxcount := rxcount s;
                    iters := (j, (Got, m)) :: iters s |}, e)
       | [] => if closed s then Some (note s (EvIterEnd j), EvIterEnd j) else None
@@ -139,7 +154,7 @@ Definition step (s : st) (a : act) : option (st * ev) :=
       match iter_of j (iters s) with
       | Some (Got, m) =>
           let e := EvStore j in
-          Some ({| fused := fused s; buf := buf s; cap := cap s; closed := closed s; cancelled := cancelled s; todo := todo s;
+          Some ({| buf := buf s; cap := cap s; closed := closed s; cancelled := cancelled s; todo := todo s;
                    deq := deq s; seen := seen s ++ [e]; last := Some m; rxcount := rxcount s;
                    iters := (j, (Stored, m)) :: drop_iter j (iters s) |}, e)
       | _ => None
@@ -148,7 +163,7 @@ Definition step (s : st) (a : act) : option (st * ev) :=
       match iter_of j (iters s) with
       | Some (Stored, m) =>
           let e := EvCount j in
-          Some ({| fused := fused s; buf := buf s; cap := cap s; closed := closed s; cancelled := cancelled s; todo := todo s;
+          Some ({| buf := buf s; cap := cap s; closed := closed s; cancelled := cancelled s; todo := todo s;
                    deq := deq s; seen := seen s ++ [e]; last := last s; rxcount := S (rxcount s);
                    iters := (j, (Counted, m)) :: drop_iter j (iters s) |}, e)
       | _ => None
@@ -159,7 +174,7 @@ Definition step (s : st) (a : act) : option (st * ev) :=
           match last s with
           | Some m =>
               let e := EvEntry j (rxcount s - 1) m in
-              Some ({| fused := fused s; buf := buf s; cap := cap s; closed := closed s; cancelled := cancelled s; todo := todo s;
+              Some ({| buf := buf s; cap := cap s; closed := closed s; cancelled := cancelled s; todo := todo s;
                        deq := deq s; seen := seen s ++ [e]; last := last s; rxcount := rxcount s;
                        iters := drop_iter j (iters s) |}, e)
           | None => None
@@ -168,10 +183,10 @@ Definition step (s : st) (a : act) : option (st * ev) :=
       end
   | Close k =>
       let e := if closed s then EvCloseErr k else EvClosed k in
-      Some ({| fused := fused s; buf := buf s; cap := cap s; closed := true; cancelled := cancelled s; todo := todo s;
+      Some ({| buf := buf s; cap := cap s; closed := true; cancelled := cancelled s; todo := todo s;
                deq := deq s; seen := seen s ++ [e]; last := last s; rxcount := rxcount s; iters := iters s |}, e)
   | Cancel =>
-      Some ({| fused := fused s; buf := buf s; cap := cap s; closed := closed s; cancelled := true; todo := todo s;
+      Some ({| buf := buf s; cap := cap s; closed := closed s; cancelled := true; todo := todo s;
                deq := deq s; seen := seen s ++ [EvCancel]; last := last s; rxcount := rxcount s;
                iters := iters s |}, EvCancel)
   | SendCtx i =>
@@ -193,8 +208,8 @@ Fixpoint run (s : st) (sch : list act) : option st :=
   | a :: r => match step s a with Some (s', _) => run s' r | None => None end
   end.
 
-Definition init (f : bool) (c : nat) (prog : nat -> list N) : st :=
-  {| fused := f; buf := []; cap := c; closed := false; cancelled := false; todo := prog; deq := []; seen := [];
+Definition init (c : nat) (prog : nat -> list N) : st :=
+  {| buf := []; cap := c; closed := false; cancelled := false; todo := prog; deq := []; seen := [];
      last := None; rxcount := 0; iters := [] |}.
 
 (* ---- projections used by the statements ---- *)
@@ -229,23 +244,39 @@ Fixpoint entry_keys (l : list ev) : list nat :=
 Definition held (s : st) (j : nat) : list msg :=
   match iter_of j (iters s) with Some (_, m) => [m] | None => [] end.
 
-(* ---- the guard: no receiver enters Chan.Next while another one is inside ForIter ---- *)
+(* ---- the guard: nobody starts a range step while a receiver is inside the Next/Entry protocol, and nobody
+   enters the protocol while any receiver is inside NextEntry or the protocol ---- *)
 
 Definition is_nil {A} (l : list A) : bool := match l with [] => true | _ => false end.
+
+(* nobody is inside the Next/Entry protocol *)
+Definition all_taken (l : list (nat * (phase * (nat * N)))) : bool :=
+  forallb (fun p => match fst (snd p) with Taken => true | _ => false end) l.
 
 Fixpoint exclusive (s : st) (sch : list act) : bool :=
   match sch with
   | [] => true
   | a :: r =>
       match step s a with
-      | Some (s', _) => (match a with Next _ => is_nil (iters s) | _ => true end) && exclusive s' r
+      | Some (s', _) => (match a with Next _ => is_nil (iters s) | Take _ => all_taken (iters s) | _ => true end)
+                        && exclusive s' r
       | None => true
       end
   end.
 
-(* the syntactic class the guard is derived from: at most one receiver (j0) iterates *)
+(* the steps of the Next/Entry protocol *)
+Definition two_step (a : act) : bool :=
+  match a with Next _ | Store _ | Count _ | Entry _ => true | _ => false end.
+
+(* the class scripts are in when they use send / receive / range only: no Next/Entry protocol at all *)
+Definition one_step_only (sch : list act) : bool := forallb (fun a => negb (two_step a)) sch.
+
+(* at most one receiver (j0) uses the Next/Entry protocol (keys(ch) / map(ch)) and nobody ranges *)
 Definition single_iter (j0 : nat) (sch : list act) : bool :=
-  forallb (fun a => match a with Next j | Store j | Count j | Entry j | NextCtx j => Nat.eqb j j0 | _ => true end) sch.
+  forallb (fun a => match a with
+                    | Next j | Store j | Count j | Entry j | NextCtx j => Nat.eqb j j0
+                    | Take _ | Fin _ => false
+                    | _ => true end) sch.
 
 Definition mem (j : nat) (l : list nat) : bool := existsb (Nat.eqb j) l.
 
